@@ -644,6 +644,10 @@ fn test_acos() {
 /// These functions return the real cube root of ***a***.
 // TODO: fix coeffs
 pub fn cbrt(mut d: P32E2) -> P32E2 {
+    // zero has no leading bit for `ilogb` to find (it would loop for ever), and NaR stays NaR
+    if d.is_zero() || d.is_nar() {
+        return d;
+    }
     let e = kernel::ilogb(d /*.abs()*/) + 1;
     d = kernel::ldexp2(d, -e);
     let r = (e + 6144) % 3;
@@ -682,6 +686,9 @@ fn test_cbrt() {
 
 // TODO: fix coeffs
 pub fn exp2(d: P32E2) -> P32E2 {
+    if d.is_nar() {
+        return NAR;
+    }
     let q = d.round();
 
     let s = d - q;
@@ -778,6 +785,9 @@ fn test_exp10() {
 ///
 /// This function returns the value of *e* raised to ***a***.
 pub fn exp(d: P32E2) -> P32E2 {
+    if d.is_nar() {
+        return NAR;
+    }
     let qf = (d * R_LN2).round();
     let q = i32::from(qf);
 
